@@ -250,6 +250,10 @@ Definition chan_upd (k : str) (f : chan -> chan) (b : bot) : bot :=
 Definition chan_upd_or_new (k : str) (f : chan -> chan) (b : bot) : bot :=
   if idict_has k (b_chans b) then chan_upd k f b else chan_set k (f chan0) b.
 
+(* try: chan = channels[k] except KeyError: return   (replies about a channel the bot has left are ignored) *)
+Definition chan_upd_known (k : str) (f : chan -> chan) (b : bot) : bot :=
+  if idict_has k (b_chans b) then chan_upd k f b else b.
+
 (* str.split() on whitespace runs *)
 Fixpoint split_ws_go (s : str) (cur : str) : list str :=
   match s with
@@ -307,10 +311,11 @@ Definition st_do354 (m : msg) (b : bot) : bot :=
 Definition st_do353 (m : msg) (b : bot) : bot :=
   match m_args m with
   | [_; ty; ch; items] =>
-      let b1 := if idict_has ch (b_chans b) then b else chan_set ch chan0 b in
-      let '(b2, ok) := names_loop ch (split_ws items) b1 in
-      if ok && seq_eqb ty [ATC]
-      then chan_upd ch (fun c => set_modes c (cdict_set S_ MNone (c_modes c))) b2 else b2
+      if idict_has ch (b_chans b) then
+        let '(b2, ok) := names_loop ch (split_ws items) b in
+        if ok && seq_eqb ty [ATC]
+        then chan_upd ch (fun c => set_modes c (cdict_set S_ MNone (c_modes c))) b2 else b2
+      else b          (* a channel the bot is not (or no longer) on: the reply is ignored *)
   | _ => b
   end.
 Definition st_doChghost (m : msg) (b : bot) : bot :=
@@ -349,13 +354,13 @@ Definition st_doMode (m : msg) (b : bot) : bot :=
   end.
 Definition st_do324 (m : msg) (b : bot) : bot :=
   match m_args m with
-  | _ :: ch :: rest => chan_upd_or_new ch (fun c => chan_324 c (separateModes rest)) b
+  | _ :: ch :: rest => chan_upd_known ch (fun c => chan_324 c (separateModes rest)) b
   | _ => b
   end.
 Definition st_do329 (m : msg) (b : bot) : bot :=
   match m_args m with
   | _ :: ch :: rest =>
-      chan_upd_or_new ch (fun c => match rest with
+      chan_upd_known ch (fun c => match rest with
                                    | a :: _ => match py_int a with Some z => set_created c z | None => c end
                                    | [] => c
                                    end) b
